@@ -515,6 +515,6 @@ pub fn run(ctx: &mut Ctx) {
         "random-choice scheduling of the runtime is observed but not judged (not in the statement)".into(),
     ];
     let ctx = &*ctx;
-    ctx.cases("udp", ctx.n(16, 400), 8, scenario_case);
+    ctx.cases("udp", ctx.n(24, 400), 8, scenario_case);
     ctx.cases("id", ctx.n(100000, 3000000), 0, id_case);
 }
